@@ -189,6 +189,7 @@ SOLVERS = {
     "M0": ("MG", dict(depth=0, smoother_iterations=2, maxiter=2), C0),
     "M1": ("MG", dict(depth=1, smoother_iterations=2, maxiter=2), C0),
     "Mh": ("MG", dict(depth=1, smoother_iterations=2, maxiter=2), ["P1", 0.5]),
+    "Jh": ("Jacobi", dict(maxiter=3), [0.5, "P1"]),  # array-valued diffusion coefficient
     "Jx": ("Jacobi", dict(maxiter=2), None),
     "Mx": ("MG", dict(depth=1, smoother_iterations=2, maxiter=1), None),
 }
@@ -254,8 +255,12 @@ def op_solve(o, h, i):
     return {"t": "solve", "o": o, "h": h, "i": i}
 
 
-def op_h1(f, i, mu, om, s="default", dim=2):
-    return {"t": "h1", "f": f, "i": i, "mu": mu, "om": om, "s": s, "dim": dim}
+def op_h1(f, i, mu, om, s="default", dim=2, sp=None):
+    """sp: the scalar parameters are handed over as NumPy scalars of that type (same values)."""
+    k = {"t": "h1", "f": f, "i": i, "mu": mu, "om": om, "s": s, "dim": dim}
+    if sp:
+        k["sp"] = sp
+    return k
 
 
 def op_sb(i, mu, ell, om=1.0, iso=False, s="default", adaptive=False):
@@ -303,12 +308,18 @@ def group_spec(g, tier):
             ops += [op_set(o, C0), op_set(o, C1)] + [op_solve(o, None, i) for i in ("a88", "b6x10")]
         ops += [op_solve("M1", None, "a88f")]
         return objs, ops, "snap"
+    if g == "jacobi-het":
+        ops = [op_set("Jh", [0.5, "P1"]), op_set("Jh", ["P2", "P1"]), op_set("Jh", [2.0, "P2"])]
+        ops += [op_solve("Jh", h, "a88") for h in (1, 2, None)]
+        return ["Jh"], ops, "snap"
     if g == "mg-het":
         return ["Mh"], [op_set("Mh", ["P1", 0.5]), op_set("Mh", ["P2", 0.5]), op_set("Mh", [3.0, 0.5]), op_solve("Mh", None, "a88"), op_solve("Mh", None, "d88")], "snap"
     if g == "h1-default":
         ops = [op_h1(H, i, mu, om) for i in ("a66", "b49", "v662", "I66") for mu in (0.1, 5.0) for om in (1.0, 2.0)]
         ops += [op_h1(H, "c345", 0.1, 1.0, dim=3), op_h1(H, "c345", 5.0, 2.0, dim=3)]
         ops += [op_h1(H, "a66f", 0.1, 1.0)]  # float32 image through the shared default solver
+        # the same parameter values spelled as NumPy scalars (float32 / int64 / float64)
+        ops += [op_h1(H, "a66", 5.0, 2.0, sp="float32"), op_h1(H, "a66", 5.0, 2.0, sp="int64"), op_h1(H, "a66", 5.0, 2.0, sp="float64")]
         ops += [op_h1("_H1_regularization_array", "a66", 0.1, 1.0), op_h1("_H1_regularization_array", "a66", 5.0, 2.0)]
         ops += [op_h1("_H1_regularization_image", "I66", 0.1, 1.0), op_h1("_H1_regularization_image", "I66", 5.0, 2.0)]
         return [], ops, "snap"
@@ -362,7 +373,7 @@ def group_spec(g, tier):
 
 
 GROUPS = (
-    ["jacobi", "mg", "mg-het", "h1-default", "h1-explicit", "tvd-default", "tvd-explicit", "anderson"]
+    ["jacobi", "jacobi-het", "mg", "mg-het", "h1-default", "h1-explicit", "tvd-default", "tvd-explicit", "anderson"]
     + ["w:" + o for o in W_OPTS]
     + ["w-shared", "w-shared-options", "cross"]
 )
@@ -431,7 +442,7 @@ def signature(key):
 def api_of(key):
     t = key["t"]
     if t == "solve":
-        return {"J": "jacobi/explicit", "Jt": "jacobi/explicit-tol", "M0": "mg/depth=0", "M1": "mg/depth=1", "Mh": "mg-heterogeneous/depth=1"}[key["o"]]
+        return {"J": "jacobi/explicit", "Jt": "jacobi/explicit-tol", "M0": "mg/depth=0", "M1": "mg/depth=1", "Mh": "mg-heterogeneous/depth=1", "Jh": "jacobi-heterogeneous"}[key["o"]]
     sk = {"default": "default-solver", "Jx": "explicit-jacobi", "Mx": "explicit-mg"}
     if t == "h1":
         return f"{key['f']}/{sk[key['s']]}"
@@ -510,6 +521,9 @@ def exec_call(world, key):
         import darsia.restoration.h1_regularization as H1
 
         kw = dict(mu=key["mu"], omega=key["om"], dim=key["dim"])
+        if key.get("sp"):
+            cast = getattr(np, key["sp"])
+            kw.update(mu=cast(key["mu"]), omega=cast(key["om"]))
         if key["s"] != "default":
             kw["solver"] = world[key["s"]]
         out = getattr(H1, key["f"])(make_input(key["i"]), **kw)
